@@ -13,24 +13,46 @@ TRUSTED = [
     "harness/props/C19.py builds the same program on pypika objects and as a Gallina value (correspondence harness)",
     "atoms are opaque non-complex criteria whose text is taken from the implementation at run time",
 ]
-ASSUMPTIONS = ["leaves are non-complex criteria (BasicCriterion/NullCriterion/Contains/Between) whose text does not depend on the subcriterion flag"]
+ASSUMPTIONS = ["PostgreSQL conflict-handler where() is exercised by the oracle only (not in the Coq model)", "leaves are non-complex criteria (BasicCriterion/NullCriterion/Contains/Between) whose text does not depend on the subcriterion flag"]
 
 OPS = {"and": "BAnd", "or": "BOr", "xor": "BXor"}
 
 
-# ---- atoms: real pypika criteria ------------------------------------------------------------
+# ---- atoms: real pypika criteria; some are bound to the FROM table t, some to a table o that is NOT part of
+# the statement (a correlated / foreign reference: where() then sets _foreign_table and everything gets qualified)
+FOREIGN = [False, False, False, True, False, True, False]
+
+
 def _atoms():
-    from pypika import Field
+    from pypika import Field, Table
+    t, o = Table("t"), Table("o")
     f = Field
-    return [f("a") == 1, f("b") > 2, f("c").isnull(), f("d").isnotnull(), f("e").between(1, 5), f("g").like("x%"),
-            f("h") != "it's"]
+    return [f("a") == 1, t.b > 2, t.c.isnull(), o.d == t.d, f("e").between(1, 5), o.g.like("x%"), t.h != "it's"]
 
 
-def atom_text(k):
-    return _atoms()[k].get_sql(quote_char='"', secondary_quote_char="'")
+def atom_texts(k, q):
+    a = _atoms()[k]
+    return (a.get_sql(quote_char=q, secondary_quote_char="'"), a.get_sql(quote_char=q, secondary_quote_char="'", with_namespace=True))
 
 
 N_ATOMS = 7
+CLASSES = ["Query", "MySQLQuery", "VerticaQuery", "OracleQuery", "PostgreSQLQuery", "RedshiftQuery", "MSSQLQuery",
+           "ClickHouseQuery", "SQLLiteQuery", "SnowflakeQuery"]
+
+
+def qcls(name):
+    import pypika
+    import pypika.dialects as D
+    return getattr(pypika, name, None) or getattr(D, name)
+
+
+def head_of(name):
+    from pypika import Table
+    return str(qcls(name).from_(Table("t")).select("*"))
+
+
+def quote_of(name):
+    return qcls(name)._builder().QUOTE_CHAR
 
 
 # ---- generator ------------------------------------------------------------------------------
@@ -59,13 +81,25 @@ def gen_cases(rng, tier):
         p_empty = rng.choice([0.0, 0.2, 0.4, 0.7, 1.0])
         ncalls = rng.choice([0, 1, 1, 2, 3, 5])
         calls = [[rng.random() < 0.3, gen_expr(rng, depth, p_empty)] for _ in range(ncalls)]
-        out.append({"calls": calls})
+        out.append({"cls": rng.choice(CLASSES) if rng.random() < 0.6 else "Query", "calls": calls})
+    # PostgreSQL conflict handlers have their own where(): the empty criterion must be ignored there too
+    for i in range(40 if tier == "quick" else 400):
+        out.append({"pgconf": rng.choice(["nothing", "update", "target"]),
+                    "calls": [[False, gen_expr(rng, rng.choice([1, 2, 3]), rng.choice([0.5, 0.8, 1.0]))] for _ in range(rng.choice([1, 2, 3]))]})
     return out
 
 
 def corpus():
     e, a, b, c = ["empty"], ["atom", 0], ["atom", 1], ["atom", 2]
+    f3, f5, t1 = ["atom", 3], ["atom", 5], ["atom", 1]
     return [
+        {"calls": [[False, f3], [False, t1]]},                      # foreign reference first, local criterion second
+        {"calls": [[False, t1], [False, e], [False, f5], [False, ["or", a, c]]], "cls": "MySQLQuery"},
+        {"calls": [[False, ["all", [f3, e, t1]]], [True, f5]], "cls": "OracleQuery"},
+        {"pgconf": "nothing", "calls": [[False, e]]},
+        {"pgconf": "nothing", "calls": [[False, ["all", []]], [False, ["inv", e]]]},
+        {"pgconf": "update", "calls": [[False, e], [False, a], [False, ["any", [e, e]]]]},
+        {"pgconf": "target", "calls": [[False, ["and", e, e]], [False, b]]},
         {"calls": [[False, e]]},
         {"calls": [[False, e], [True, e]]},
         {"calls": [[False, ["and", e, a]], [False, ["or", a, e]], [False, ["xor", e, e]]]},
@@ -99,10 +133,28 @@ def build(e):
     raise ValueError(k)
 
 
+def _pg_base(kind):
+    from pypika import PostgreSQLQuery, Table
+    t = Table("t")
+    q = PostgreSQLQuery.into(t).insert(1, 2).on_conflict("id")
+    if kind == "nothing":
+        return q.do_nothing()
+    if kind == "update":
+        return q.do_update("a", 5)
+    return q          # where() after on_conflict(target) filters the conflict target
+
+
 def run_impl(case):
-    from pypika import Query
+    from pypika import Table
     try:
-        q = Query.from_("t").select("*")
+        if "pgconf" in case:
+            q = _pg_base(case["pgconf"])
+            for _, e in case["calls"]:
+                q = q.where(build(e))
+            if case["pgconf"] == "target":
+                q = q.do_update("a", 5)
+            return {"text": str(q)}
+        q = qcls(case.get("cls", "Query")).from_(Table("t")).select("*")
         for having, e in case["calls"]:
             q = q.having(build(e)) if having else q.where(build(e))
         return {"text": str(q)}
@@ -116,7 +168,8 @@ def expr_coq(e):
     if k == "empty":
         return "XEmpty"
     if k == "atom":
-        return "(XAtom %s)" % S(atom_text(e[1]))
+        p_, n_ = atom_texts(e[1], Q_[0])
+        return "(XAtomT %s %s %s)" % (S(p_), S(n_), B(FOREIGN[e[1]]))
     if k in OPS:
         return "(XBin %s %s %s)" % (OPS[k], expr_coq(e[1]), expr_coq(e[2]))
     if k == "inv":
@@ -126,9 +179,16 @@ def expr_coq(e):
     return "(%s %s)" % ("XAll" if k == "all" else "XAny", L([expr_coq(x) for x in e[1]]))
 
 
+Q_ = ['"']
+
+
 def to_coq(case, outcome):
+    if "pgconf" in case:
+        return None      # PostgreSQL conflict-handler where(): oracle only
+    name = case.get("cls", "Query")
+    Q_[0] = quote_of(name)
     calls = L([P(B(h), expr_coq(e)) for h, e in case["calls"]])
-    return P(calls, S(outcome["text"]))
+    return P(S(head_of(name)), calls, S(outcome["text"]))
 
 
 # ---- oracle: the property's observable, independent of the model ----------------------------
@@ -183,7 +243,7 @@ def _first_op(case):
 
 
 def oracle(case, outcome):
-    from pypika import Query
+    from pypika import Table
     from pypika.terms import ComplexCriterion
     from pypika.enums import Boolean
     text = outcome.get("text", "!harness")
@@ -196,20 +256,29 @@ def oracle(case, outcome):
             h = r if h is None else ComplexCriterion(Boolean.and_, h, r)
         else:
             w = r if w is None else ComplexCriterion(Boolean.and_, w, r)
-    q = Query.from_("t").select("*")
+    # the reference statement: ONE where()/having() call with the empty-free conjunction (or none at all)
     try:
-        exp = 'SELECT * FROM "t"'
-        if w is not None:
-            exp += " WHERE " + w.get_sql(quote_char='"', secondary_quote_char="'")
-        if h is not None:
-            exp += " HAVING " + h.get_sql(quote_char='"', secondary_quote_char="'")
-    except Exception as ex:  # reference itself unrenderable: not a C19 matter
+        if "pgconf" in case:
+            q = _pg_base(case["pgconf"])
+            if w is not None:
+                q = q.where(w)
+            if case["pgconf"] == "target":
+                q = q.do_update("a", 5)
+        else:
+            q = qcls(case.get("cls", "Query")).from_(Table("t")).select("*")
+            if w is not None:
+                q = q.where(w)
+            if h is not None:
+                q = q.having(h)
+        exp = str(q)
+    except Exception:  # the reference itself is rejected (e.g. DO NOTHING with a real WHERE): not a C19 matter
         return []
     if text == exp:
         return []
     kind = "exception" if text.startswith("!") else ("dangling" if text.rstrip().endswith(("WHERE", "HAVING")) else "text-differs")
-    return [{"signature": ["C19", _first_op(case), kind],
-             "what": "statement with empty criteria / folded filters renders %r, the empty-free conjunction renders %r" % (text, exp)}]
+    where = "pg-" + case["pgconf"] if "pgconf" in case else "where"
+    return [{"signature": ["C19", _first_op(case) if "pgconf" not in case else where, kind],
+             "what": "statement with empty criteria / split filters renders %r, one call with the empty-free conjunction renders %r" % (text, exp)}]
 
 
 def nontrivial_key(case):
@@ -233,6 +302,8 @@ def histogram(cases):
             for x in e[1]:
                 walk(x)
     for c in cases:
+        key = "pgconf=" + c["pgconf"] if "pgconf" in c else "cls=" + c.get("cls", "Query")
+        h[key] = h.get(key, 0) + 1
         h["calls=%d" % len(c["calls"])] = h.get("calls=%d" % len(c["calls"]), 0) + 1
         for _, e in c["calls"]:
             walk(e)
@@ -244,7 +315,7 @@ def targeted_search(rng, broken, mism_cases):
     out = []
     for c in mism_cases:
         for call in c["calls"]:
-            out.append({"calls": [call]})
+            out.append(dict(c, calls=[call]))
     for _ in range(2000):
-        out.append({"calls": [[rng.random() < 0.3, gen_expr(rng, 3, rng.choice([0.3, 0.6]))] for _ in range(rng.choice([1, 2, 3]))]})
+        out.append({"cls": rng.choice(CLASSES), "calls": [[rng.random() < 0.3, gen_expr(rng, 3, rng.choice([0.3, 0.6]))] for _ in range(rng.choice([1, 2, 3]))]})
     return out
